@@ -710,6 +710,11 @@ func ruleTokenFanout(c *Ctx) {
 				bad = "token replaced without fanning out reaccess over the connection's subscriptions: " + tr.FmtPath(path)
 				break
 			}
+			// the re-check requests carry the NEW token: it is stored before the fan-out starts
+			if ti, ri := indexKind(path, "token="), indexKind(path, "reaccess"); ri >= 0 && ti > ri {
+				bad = "the subscriptions are re-checked before the new token is stored: the re-check requests carry the token that was just replaced, and the answer to the old token gates calls made with the new one: " + tr.FmtPath(path)
+				break
+			}
 			// every entered iteration calls reaccess, unconditionally
 			nb, nr := countKind(path, "body"), countKind(path, "reaccess")
 			if nb != nr {
